@@ -57,6 +57,8 @@ class _VDateTime(_dt.datetime):
 
 
 def _vsleep(seconds: float) -> None:
+    if seconds < 0:
+        raise ValueError("sleep length must be non-negative")      # as the real time.sleep()
     _state['loop'].advance_us(max(1, round(seconds * 1_000_000)))
 
 
